@@ -147,13 +147,13 @@ Qed.
 (* the code before the fix: AddCloser returns nil, Run has returned, and the closer has no
    goroutine and never will (the closer goroutines are created once, by [CClosing]) *)
 Lemma cm_every_closer_once_refuted :
-  exists s errs, run_c Original (new_cm false [Free None] []) addcloser_race = Some s /\
+  exists s errs, run_c Original (new_cm None [Free None] []) addcloser_race = Some s /\
     c_pc s = CDone errs /\ nth_error (addcl s) 0 = Some (ACAccepted 0) /\
     closers s = [User (Some 7%Z)] /\ c_procs s = [] /\ step_c Original s CClosing = None.
 Proof. eexists; eexists. split; [vm_compute; reflexivity|]. repeat split. Qed.
 
 Example addcloser_race_fixed :
-  exists s, run_c Fixed (new_cm false [Free None] []) addcloser_race = Some s /\
+  exists s, run_c Fixed (new_cm None [Free None] []) addcloser_race = Some s /\
             nth_error (addcl s) 0 = Some ACRejected /\ closers s = [].
 Proof. eexists. split; [vm_compute; reflexivity|]. split; reflexivity. Qed.
 
@@ -198,46 +198,112 @@ Proof.
 Qed.
 
 (* the fatal action *)
+Lemma fatal_free_procs v bs s :
+  cinv v None bs s -> fatal_state (c_procs s) = None.
+Proof.
+  intro H. apply fatal_state_none. intros p Hp. destruct (ci_closers _ _ _ _ H) as [tl [E _]].
+  assert (Hin : In (c_cl p) (closers s)).
+  { rewrite E. apply in_or_app. left. apply in_map. exact Hp. }
+  pose proof (ci_nograce _ _ _ _ H _ Hin) as Hg. destruct (c_cl p); [discriminate | reflexivity].
+Qed.
+
+Lemma cfire_shape v s s' :
+  step_c v s CFire = Some s' ->
+  timer_fired s = false /\ grace_elapsed s = true /\ fired_early s' = negb (fch_closed s).
+Proof.
+  intro Hs. cbn [step_c step_c_gen] in Hs.
+  destruct (find_fatal_running (c_procs s) 0); try discriminate.
+  destruct (timer_fired s); [discriminate|]. destruct (grace_elapsed s); inv Hs. auto.
+Qed.
+
 Lemma cm_fatal_iff_outlast : forall v grace bs cls es s,
   run_c v (new_cm grace bs cls) es = Some s ->
   fatal_count s <= 1 /\
   (fatal_count s = 1 -> timer_fired s = true) /\
   (decidedb (fatal_state (c_procs s)) = true -> tie s = false ->
      (fatal_count s = 1 <-> fired_early s = true)) /\
-  (grace = false -> fatal_count s = 0) /\
+  (grace = None -> fatal_count s = 0) /\
   (forall s', step_c v s CFire = Some s' -> fired_early s' = negb (fch_closed s)).
 Proof.
   intros v grace bs cls es s H. apply cinv_reach in H.
   destruct (decidedb (fatal_state (c_procs s))) eqn:Ed.
   - destruct (ci_j4 _ _ _ _ H Ed) as [H1 [H2 H3]]. split; [auto|]. split; [auto|]. split; [auto|].
     split.
-    + intros ->. exfalso.
-      assert (Hn : fatal_state (c_procs s) = None).
-      { apply fatal_state_none. intros p Hp. destruct (ci_closers _ _ _ _ H) as [tl [E _]].
-        apply (ci_nograce _ _ _ _ H eq_refl). rewrite E. apply in_or_app. left.
-        apply in_map. exact Hp. }
-      rewrite Hn in Ed. discriminate.
-    + intros s' Hs. cbn [step_c step_c_gen step_c_gen] in Hs. destruct (find_fatal_running (c_procs s) 0); try discriminate.
-      destruct (timer_fired s); inv Hs. reflexivity.
+    + intros ->. exfalso. rewrite (fatal_free_procs _ _ _ H) in Ed. discriminate.
+    + intros s' Hs. apply (cfire_shape _ _ _ Hs).
   - destruct (ci_j3 _ _ _ _ H Ed) as [H1 H2]. rewrite H1. split; [lia|]. split; [discriminate|].
     split; [discriminate|]. split; [auto|].
-    intros s' Hs. cbn [step_c step_c_gen step_c_gen] in Hs. destruct (find_fatal_running (c_procs s) 0); try discriminate.
-    destruct (timer_fired s); inv Hs. reflexivity.
+    intros s' Hs. apply (cfire_shape _ _ _ Hs).
+Qed.
+
+(* WHEN THE GRACE PERIOD HAS ELAPSED.  The grace timer is created when the fatal closer starts
+   ([elapsed] is reset to 0 then and grows with the clock).  It is delivered only on a manager
+   created with a grace period d, and only once the clock has advanced by at least d since then;
+   from that moment on it CAN be delivered while the fatal closer is still waiting - in
+   particular at once when d is 0 or negative: a non-positive grace period is a grace period
+   that every closer that does not return at once outlasts, not "no grace period". *)
+Lemma fatal_grace_of_running ps : forall k j,
+  find_fatal_running ps k = Some j -> exists d, fatal_grace ps = Some d.
+Proof.
+  induction ps as [|q ps IH]; intros k j H; cbn in H; try discriminate.
+  cbn [fatal_grace]. destruct (c_cl q) as [d|r] eqn:Ecl; cbn [is_fatal] in H.
+  - eauto.
+  - eapply IH; eauto.
+Qed.
+
+Lemma fatal_grace_in ps d : fatal_grace ps = Some d -> exists p, In p ps /\ c_cl p = Fatal d.
+Proof.
+  induction ps as [|q ps IH]; intro H; cbn in H; try discriminate.
+  destruct (c_cl q) as [d'|r] eqn:Ecl.
+  - inv H. exists q. split; [left; reflexivity | exact Ecl].
+  - destruct (IH H) as [p [Hp Hc]]. exists p. split; [right; auto | auto].
+Qed.
+
+Lemma cm_grace_elapsed : forall v grace bs cls es s,
+  run_c v (new_cm grace bs cls) es = Some s ->
+  (0 <= elapsed s)%Z /\
+  (forall s', step_c v s CFire = Some s' -> exists d, grace = Some d /\ (d <= elapsed s)%Z) /\
+  (forall d j, grace = Some d -> find_fatal_running (c_procs s) 0 = Some j ->
+     timer_fired s = false -> (d <= elapsed s)%Z -> exists s', step_c v s CFire = Some s') /\
+  (forall d j, grace = Some d -> (d <= 0)%Z -> find_fatal_running (c_procs s) 0 = Some j ->
+     timer_fired s = false -> exists s', step_c v s CFire = Some s').
+Proof.
+  intros v grace bs cls es s H. apply cinv_reach in H.
+  pose proof (ci_elapsed _ _ _ _ H) as Hel.
+  assert (Hg : forall d, fatal_grace (c_procs s) = Some d -> grace = Some d).
+  { intros d Hd. destruct (fatal_grace_in _ _ Hd) as [p [Hp Hc]].
+    destruct (ci_closers _ _ _ _ H) as [tl [E _]].
+    assert (Hin : In (c_cl p) (closers s)).
+    { rewrite E. apply in_or_app. left. apply in_map. exact Hp. }
+    pose proof (ci_nograce _ _ _ _ H _ Hin) as Hx. rewrite Hc in Hx. exact Hx. }
+  assert (Hen : forall d j, grace = Some d -> find_fatal_running (c_procs s) 0 = Some j ->
+                timer_fired s = false -> (d <= elapsed s)%Z ->
+                exists s', step_c v s CFire = Some s').
+  { intros d j Hgr Hf Ht Hd. cbn [step_c step_c_gen]. rewrite Hf, Ht. cbn [orb].
+    destruct (fatal_grace_of_running _ _ _ Hf) as [d' Hd'].
+    unfold grace_elapsed. rewrite Hd'. pose proof (Hg _ Hd') as Hx. rewrite Hgr in Hx. inv Hx.
+    apply Z.leb_le in Hd. rewrite Hd. cbn. eauto. }
+  split; [exact Hel|]. split; [|split].
+  - intros s' Hs. destruct (cfire_shape _ _ _ Hs) as [_ [Hge _]]. unfold grace_elapsed in Hge.
+    destruct (fatal_grace (c_procs s)) as [d|] eqn:Hd; try discriminate.
+    exists d. split; [apply Hg; reflexivity | apply Z.leb_le; exact Hge].
+  - exact Hen.
+  - intros d j Hgr Hd Hf Ht. apply (Hen d j); auto. lia.
 Qed.
 
 (* non-vacuity: a run in which the grace period elapses while closer 0 is still running (fatal),
    and one in which the closers finish in time (no fatal) *)
 Example fatal_fires :
-  exists s, run_c Fixed (new_cm true [] [None])
+  exists s, run_c Fixed (new_cm (Some 5%Z) [] [None])
                   [CRunCas; CSetupLen; CSetup; CInner RSpawn; CInner RRunReturn; CClosing; CCloserStart 0;
-                   CCloserStart 1; CFire; CFatal; CCloserReturn 1; CCollectCloser 0;
+                   CCloserStart 1; CAdvance 5%Z; CFire; CFatal; CCloserReturn 1; CCollectCloser 0;
                    CCloseFatalCh; CCollectCloser 1; CRunReturn] = Some s /\
             fatal_count s = 1 /\ fired_early s = true /\ tie s = false /\
             decidedb (fatal_state (c_procs s)) = true.
 Proof. eexists. split; [vm_compute; reflexivity|]. repeat split. Qed.
 
 Example fatal_does_not_fire :
-  exists s, run_c Fixed (new_cm true [] [None])
+  exists s, run_c Fixed (new_cm (Some 5%Z) [] [None])
                   [CRunCas; CSetupLen; CSetup; CInner RSpawn; CInner RRunReturn; CClosing; CCloserStart 0;
                    CCloserStart 1; CCloserReturn 1; CCollectCloser 1; CCloseFatalCh; CFatalQuit;
                    CCollectCloser 0; CRunReturn] = Some s /\
@@ -316,7 +382,7 @@ Qed.
 (* non-vacuity: a complete run with a runner error and a closer error, a Close during the run and
    one after it; Run and both Close calls return the join *)
 Example full_run :
-  exists s, run_c Fixed (new_cm false [Free (Some 5%Z)] [Some 9%Z])
+  exists s, run_c Fixed (new_cm None [Free (Some 5%Z)] [Some 9%Z])
                   [CRunCas; CSetupLen; CSetup; CInner RSpawn; CCloseBegin; CCloseStep 0;
                    CInner (RRunnerReturn 1); CInner (RCollect 1); CInner (RRunnerReturn 0);
                    CInner (RCollect 0); CInner RRunReturn; CClosing; CCloserStart 0;
@@ -478,6 +544,7 @@ Proof.
   - same_inner H W s.
   - same_inner H W s.
   - same_inner H W s.
+  - same_inner H W s.
   - (* CCollectCloser *)
     destruct W as [_ W2]. destruct (c_pc s) eqn:Epc; try discriminate.
     split_all H. inv H. unfold winv. cbn. split; [intros []|]. intros _. apply W2. exact Logic.I.
@@ -562,9 +629,9 @@ Definition close_cannot_stop (s : cstate) (step : cstate -> cev -> option cstate
   step s (CInner (RRunnerReturn 0)) = None /\ step s (CCloseStep 0) = None.
 
 Lemma cm_close_reaches_runners_refuted :
-  (exists s, run_c Original (new_cm false [] []) add_watcher_race = Some s /\
+  (exists s, run_c Original (new_cm None [] []) add_watcher_race = Some s /\
              close_cannot_stop s (step_c Original)) /\
-  (exists s, run_c_gen Fixed Original (new_cm false [] []) add_watcher_race = Some s /\
+  (exists s, run_c_gen Fixed Original (new_cm None [] []) add_watcher_race = Some s /\
              close_cannot_stop s (step_c_gen Fixed Original)).
 Proof.
   split; eexists; (split; [vm_compute; reflexivity|]); unfold close_cannot_stop; repeat split.
@@ -572,13 +639,13 @@ Qed.
 
 (* the same schedule on the fixed code: the Add is refused under the lock *)
 Example add_watcher_race_fixed :
-  exists s, run_c Fixed (new_cm false [] []) add_watcher_race = Some s /\
+  exists s, run_c Fixed (new_cm None [] []) add_watcher_race = Some s /\
             cadds s = [CARefused] /\ r_procs (inner s) = [] /\ r_runners (inner s) = [].
 Proof. eexists. split; [vm_compute; reflexivity|]. repeat split. Qed.
 
 (* non-vacuity: a manager built EMPTY, runners registered through Add, Close during Run *)
 Example close_reaches_added_runners :
-  exists s, run_c Fixed (new_cm false [] [None])
+  exists s, run_c Fixed (new_cm None [] [None])
                   [CAddCheck (OnCancel (Some 5%Z)); CAddAppend 0; CAddCheck CtxErr; CAddAppend 1;
                    CRunCas; CSetupLen; CSetup; CInner RSpawn; CCloseBegin; CCloseStep 0;
                    CInner (RRunnerReturn 2); CInner (RCollect 2); CInner (RRunnerReturn 0);
@@ -587,3 +654,27 @@ Example close_reaches_added_runners :
                    CCollectCloser 0; CRunReturn; CCloseStep 0] = Some s /\
             c_pc s = CDone [5%Z] /\ closes s = [KRet [5%Z]].
 Proof. eexists. split; [vm_compute; reflexivity|]. split; reflexivity. Qed.
+
+(* non-vacuity of the boundary: with a grace period of 0 the timer is due the moment the fatal
+   closer has created it - no clock advance at all - and the fatal action fires while closer 0
+   is still running; the same with a negative one *)
+Example zero_grace_fires_at_once :
+  exists s, run_c Fixed (new_cm (Some 0%Z) [] [None])
+                  [CRunCas; CSetupLen; CSetup; CInner RSpawn; CInner RRunReturn; CClosing;
+                   CCloserStart 0; CCloserStart 1; CFire; CFatal] = Some s /\
+            fatal_count s = 1 /\ fired_early s = true /\ elapsed s = 0%Z.
+Proof. eexists. split; [vm_compute; reflexivity|]. repeat split. Qed.
+
+Example negative_grace_fires_at_once :
+  exists s, run_c Fixed (new_cm (Some (-1000000000)%Z) [] [None])
+                  [CRunCas; CSetupLen; CSetup; CInner RSpawn; CInner RRunReturn; CClosing;
+                   CCloserStart 0; CCloserStart 1; CFire; CFatal] = Some s /\
+            fatal_count s = 1.
+Proof. eexists. split; [vm_compute; reflexivity|]. reflexivity. Qed.
+
+(* ... and a positive one is not due one nanosecond early *)
+Example positive_grace_not_early :
+  run_c Fixed (new_cm (Some 5%Z) [] [None])
+        [CRunCas; CSetupLen; CSetup; CInner RSpawn; CInner RRunReturn; CClosing;
+         CCloserStart 0; CCloserStart 1; CAdvance 4%Z; CFire] = None.
+Proof. vm_compute. reflexivity. Qed.
